@@ -187,8 +187,16 @@ def solve(spec, terms=None, vals=None, grid_objs=None):
             kw["include_origin"] = opts["include_origin"]
         if "remove_large_pts" in opts:
             kw["remove_large_pts"] = opts["remove_large_pts"]
-        if opts.get("boundary") == "exact":
-            kw["boundary"] = float(charge(spec["density"] if terms is None else terms) * np.sqrt(4.0 * np.pi))
+        if opts.get("boundary") in ("exact", "shifted"):
+            # u_00(r_max) = boundary with V = u_00 Y_00 / r and Y_00 = 1/sqrt(4 pi); a boundary value that is off by D adds the homogeneous
+            # solution D r / r_max to u_00, i.e. the constant D Y_00 / r_max to the potential ("shifted": chosen so that this constant is spec["shift"])
+            b = charge(spec["density"] if terms is None else terms) * np.sqrt(4.0 * np.pi)
+            if opts["boundary"] == "shifted":
+                r = ags[0].rgrid.points
+                cut = kw.get("remove_large_pts", 1e6)
+                rmax = float(np.max(r if cut is None else r[r <= cut]))
+                b += spec["shift"] * rmax * np.sqrt(4.0 * np.pi)
+            kw["boundary"] = float(b)
         if opts.get("zero_guess"):
             r = ags[0].rgrid.points
             n = r.size + (1 if kw.get("include_origin", True) and np.all(r > 0) else 0)
@@ -237,7 +245,9 @@ def eval_accuracy(spec):
         return False, "the density values were modified"
     if not np.all(np.isfinite(got)):
         return False, "non-finite potential value"
-    want = pot(spec.get("reference", spec["density"]), pts)
+    want = pot(spec["density"], pts)
+    if spec.get("options", {}).get("boundary") == "shifted":
+        want = want + spec["shift"]
     err = float(np.max(np.abs(got - want)))
     k = int(np.argmax(np.abs(got - want)))
     # "rel": potentials of many-electron cores are O(Z): the documented absolute accuracy refers to unit charges
@@ -260,6 +270,7 @@ def eval_accuracy(spec):
 
 KNOWN_ORIGIN = ":known-origin-node-nonconvergence"
 KNOWN_NNLS = ":known-nnls-iteration-limit"
+KNOWN_INFLATION = ":known-split2-charge-inflating-fit"
 
 
 def accuracy_contract(col, cid, spec):
@@ -295,7 +306,41 @@ def accuracy_contract(col, cid, spec):
             ok2 = False
         if ok2:
             col.last_failure["case_id"] = cid + KNOWN_NNLS
+    # Recorded finding: the split-2 fit is an unweighted least-squares fit over the grid points (crowded at the nuclei); on some two-centre densities
+    # it puts tens of electrons into the most diffuse basis function and the numerical solver has to cancel them, which ruins the result.
+    # Signature: accuracy failure with split2=True, the same input passes with split2=False, and the real fit routine applied to the residual
+    # returns coefficients whose sum exceeds the residual's charge by more than 5 (1 + |charge|).
+    if spec["solver"] == "robust" and opts.get("split2") and detail.startswith("max |V - V_analytic|"):
+        try:
+            same = split2_inflation_signature(spec)
+        except Exception:  # noqa: BLE001
+            same = False
+        if same:
+            col.last_failure["case_id"] = cid + KNOWN_INFLATION
     return ok
+
+
+def split2_inflation_signature(spec):
+    try:
+        from grid.robust_poisson import _DEFAULT_ALPHAS_BASIS, _fit_residual_gaussians
+    except ImportError:
+        return False
+    grid, ags, itf = build(spec["grid"])
+    cs = centres(spec["grid"])
+    core = []
+    for z, c in zip(spec["atnums"], cs):
+        core += core_terms(z, c)
+    res = dens(spec["density"], grid.points) - dens(core, grid.points)
+    basis = spec["options"].get("alphas_basis")
+    basis = _DEFAULT_ALPHAS_BASIS if basis is None else np.asarray(basis, dtype=float)
+    coeffs = _fit_residual_gaussians(grid.points, res, np.array(cs), basis)[0]
+    q = charge(spec["density"]) - charge(core)
+    if not abs(float(np.sum(coeffs)) - q) > 5.0 * (1.0 + abs(q)):
+        return False
+    spec2 = copy.deepcopy(spec)
+    spec2["options"]["split2"] = False
+    spec2["tol"] = 1e-2
+    return bool(eval_accuracy(spec2)[0])
 
 
 def eval_linearity(spec):
@@ -514,7 +559,8 @@ def fam_bvp_atomic_s(col, g, tier):
     """On-centre sums of s-type Gaussians, r = 0 node in the mesh (default include_origin=True): boundary/large-point/origin options."""
     variants = [
         ("becke:origin-added:boundary-auto", "Becke", {}, "GaussLegendre", {}),
-        ("becke:origin-added:boundary-given", "Becke", {}, "GaussLegendre", {"boundary": "exact"}),
+        ("becke:origin-added:boundary-given", "Becke", {}, "GaussLegendre", {"boundary": "exact", "remove_large_pts": 12.0}),
+        ("becke:origin-added:boundary-given-shifted", "Becke", {}, "GaussLegendre", {"boundary": "shifted", "remove_large_pts": 40.0}),
         ("becke:origin-added:large-pts-removed", "Becke", {}, "GaussLegendre", {"remove_large_pts": 25.0}),
         ("becke:origin-added:large-pts-kept", "Becke", {}, "GaussLegendre", {"remove_large_pts": None, "zero_guess": True}),
         ("becke-trim-inf:origin-in-grid", "Becke0", {"trim_inf": True}, "Trapezoidal", {"include_origin": True}),
@@ -522,7 +568,7 @@ def fam_bvp_atomic_s(col, g, tier):
         ("becke:no-origin", "Becke", {}, "GaussLegendre", {"include_origin": False}),
         ("handymod:no-origin", "HandyMod", {}, "GaussLegendre", {"include_origin": False}),
     ]
-    reps = 1 if tier == "quick" else 3
+    reps = 1 if tier == "quick" else 5
     for rep in range(reps):
         for name, tfn, kw, rule, opts in variants:
             centre = g.normal(size=3) * (0.0 if rep == 0 else 1.0)          # a displaced atom: the solver has to centre the points
@@ -542,6 +588,8 @@ def fam_bvp_atomic_s(col, g, tier):
             terms = s_terms(g, int(g.integers(1, 4)), centre, amax=3.0 if no_origin else 4.0)
             spec = {"solver": "bvp", "grid": gs, "density": terms, "options": dict(opts), "points": pts.tolist(),
                     "tol": 1e-2 if no_origin else 2e-3, "np_seed": int(g.integers(1 << 30))}
+            if opts.get("boundary") == "shifted":
+                spec["shift"] = float(g.uniform(0.2, 0.5) * g.choice([1.0, -1.0]))
             contract(col, "accuracy", f"solve_poisson_bvp:atomic-s:{name}", spec)
 
 
@@ -563,7 +611,7 @@ def aniso_terms(g, pts, centre, kinds):
 def fam_bvp_atomic_aniso(col, g, tier):
     """p/d/f-type and off-centre Gaussians on an atomic grid without the origin node; every l = 1, 2 polynomial appears (m ordering)."""
     plans = [("p", [1, 1]), ("d", [2, 2]), ("pdf", [1, 2, 3]), ("off-centre-s", ["off"]), ("s+p+off", ["s", 1, "off"]), ("f", [3, 1])]
-    reps = 1 if tier == "quick" else 3
+    reps = 1 if tier == "quick" else 5
     for rep in range(reps):
         for i, (name, kinds) in enumerate(plans):
             centre = g.normal(size=3) * (0.0 if (rep + i) % 2 == 0 else 0.7)
@@ -616,7 +664,7 @@ def mol_grid(g, tfspec, degs, ns, atnums, rmin=1.2, rmax=2.5):
 
 def fam_bvp_mol(col, g, tier):
     """Two-centre molecular grids (different radial sizes and degrees per atom), s-type Gaussians on both nuclei."""
-    reps = 1 if tier == "quick" else 4
+    reps = 1 if tier == "quick" else 6
     for rep in range(reps):
         if (rep + int(g.integers(2))) % 2 == 0:
             tfn, tf = "becke", ("Becke", becke_args(g, (1e-5, 1e-6)), {})
@@ -632,7 +680,7 @@ def fam_bvp_mol(col, g, tier):
                 "np_seed": int(g.integers(1 << 30))}
         contract(col, "accuracy", f"solve_poisson_bvp:two-centre:{tfn}:no-origin", spec)
     # structural identity on cheap grids (accuracy is irrelevant here)
-    for rep in range(1 if tier == "quick" else 2):
+    for rep in range(1 if tier == "quick" else 3):
         gs = mol_grid(g, ("Becke", becke_args(g), {}), (int(g.choice([5, 7])), int(g.choice([7, 9]))), (int(g.integers(40, 50)), int(g.integers(50, 60))), (1, 8), 1.0, 3.0)
         cs = centres(gs)
         terms = [dict(t) for c in cs for t in s_terms(g, 1, c, amax=2.5)]
@@ -645,7 +693,7 @@ def fam_ivp(col, g, tier):
     """Initial-value solver: spherically symmetric densities on atomic grids; linearity; moment-free l > 0 components."""
     variants = [("default-interval", None, None, (62, 77)), ("interval-300-1e-2", [300.0, 1e-2], None, (58, 77)),
                 ("interval-100-1e-3", [100.0, 1e-3], None, (58, 77)), ("interval-300-1e-2:tight-ode", [300.0, 1e-2], {"rtol": 1e-10, "atol": 1e-10}, (58, 77))]
-    reps = 1 if tier == "quick" else 3
+    reps = 1 if tier == "quick" else 5
     for rep in range(reps):
         for name, interval, op, nr in variants:
             centre = g.normal(size=3) * (0.0 if rep == 0 else 1.0)
@@ -681,7 +729,7 @@ def fam_ivp(col, g, tier):
 
 
 def fam_linearity(col, g, tier):
-    reps = 1 if tier == "quick" else 3
+    reps = 1 if tier == "quick" else 4
     for rep in range(reps):
         gs = atom_grid("Becke", becke_args(g), {}, int(g.integers(58, 77)), 5)
         pts = mkpts(g, [np.zeros(3)], 0.05, 6.0)
@@ -700,7 +748,7 @@ def fam_laplacian(col, g, tier):
     if interpolate_laplacian is None:
         return
     plans = [("s", ["s"]), ("p", [1]), ("d", [2]), ("f", [3]), ("spdf", ["s", 1, 2, 3])]
-    reps = 1 if tier == "quick" else 3
+    reps = 1 if tier == "quick" else 5
     for rep in range(reps):
         for i, (name, kinds) in enumerate(plans):
             centre = g.normal(size=3) * (0.0 if (rep + i) % 2 == 0 else 0.8)
@@ -727,17 +775,17 @@ def fam_laplacian(col, g, tier):
 def fam_robust(col, g, tier):
     if solve_poisson_robust is None:
         return
-    reps = 1 if tier == "quick" else 2
+    reps = 1 if tier == "quick" else 4
     for rep in range(reps):
         # exact cancellation: rho = fitted core model -> the numerical part vanishes, V is the closed-form core potential
-        for z in ((1, 6, 17) if rep == 0 else (7, 8)):
+        for z in ((1, 6, 17) if rep % 2 == 0 else (7, 8)):
             for split2 in (False, True):
                 centre = g.normal(size=3) * (0.0 if z == 1 else 0.6)
                 gs = atom_grid("Becke", becke_args(g), {}, int(g.integers(50, 70)), int(g.choice([5, 7])), center=centre)
                 spec = {"solver": "robust", "atnums": [z], "grid": gs, "density": core_terms(z, centre), "options": {"split2": split2},
                         "points": mkpts(g, [centre], 0.05, 5.0).tolist(), "tol": 1e-7, "np_seed": int(g.integers(1 << 30))}
                 contract(col, "accuracy", f"solve_poisson_robust:core-model:Z{z}:split2-{split2}", spec)
-        for zs in (((1, 8),) if rep == 0 else ((6, 17), (8, 1))):
+        for zs in (((1, 8),) if rep % 2 == 0 else ((6, 17), (8, 1))):
             gs = mol_grid(g, ("Becke", becke_args(g), {}), (int(g.choice([5, 7])), int(g.choice([7, 9]))), (int(g.integers(40, 50)), int(g.integers(50, 60))), zs, 1.0, 3.0)
             cs = centres(gs)
             terms = core_terms(zs[0], cs[0]) + core_terms(zs[1], cs[1])
@@ -746,7 +794,7 @@ def fam_robust(col, g, tier):
                         "points": mkpts(g, cs, 0.05, 5.0).tolist(), "tol": 1e-7, "np_seed": int(g.integers(1 << 30))}
                 contract(col, "accuracy", f"solve_poisson_robust:core-model:two-centre:split2-{split2}", spec)
         # robust = core + numeric(residual); agreement with the plain solver and the analytic potential on smooth densities
-        for z in ((1, 6) if rep == 0 else (7, 8)):
+        for z in ((1, 6) if rep % 2 == 0 else (7, 8)):
             # the residual contains the (negative) sharp core Gaussians: the mesh has to resolve them
             gs = atom_grid("Becke", becke_args(g), {}, int(g.integers(58, 77)) if z == 1 else int(g.integers(90, 121)), 5)
             pts = mkpts(g, [np.zeros(3)], 0.1, 5.0)
@@ -765,6 +813,11 @@ def fam_robust(col, g, tier):
         spec = {"solver": "robust", "atnums": [1], "grid": gs, "density": terms, "options": {"split2": True, "alphas_basis": basis},
                 "points": mkpts(g, [np.zeros(3)], 0.05, 5.0).tolist(), "tol": 1e-6, "np_seed": int(g.integers(1 << 30))}
         contract(col, "accuracy", "solve_poisson_robust:split2:basis-members:exact", spec)
+        one = float(g.uniform(0.4, 3.0))
+        terms = core_terms(1, [0, 0, 0]) + [{"t": "s", "a": one, "c": float(g.uniform(0.3, 1)), "at": [0.0, 0.0, 0.0]}]
+        spec = {"solver": "robust", "atnums": [1], "grid": gs, "density": terms, "options": {"split2": True, "alphas_basis": [one]},
+                "points": mkpts(g, [np.zeros(3)], 0.05, 5.0).tolist(), "tol": 1e-6, "np_seed": int(g.integers(1 << 30))}
+        contract(col, "accuracy", "solve_poisson_robust:split2:single-basis-member:exact", spec)
         # a purely negative residual cannot be fitted (empty fit): numerical path
         terms = core_terms(1, [0, 0, 0]) + [{"t": "s", "a": float(g.uniform(0.5, 3)), "c": -float(g.uniform(0.3, 1)), "at": [0.0, 0.0, 0.0]}]
         spec = {"solver": "robust", "atnums": [1], "grid": gs, "density": terms, "options": {"split2": True},
